@@ -1,20 +1,5 @@
 verus! {
-// ------------------------------------------------------------------ arithmetic lemmas
-pub proof fn lemma_ratio_bound(a: nat, b: nat, f: nat, k: nat)
-    requires b > 0, a <= k * b,
-    ensures (a * f) / b <= k * f,
-{
-    assert(a * f <= (k * f) * b) by (nonlinear_arith) requires a <= k * b;
-    assert((a * f) / b <= k * f) by (nonlinear_arith) requires a * f <= (k * f) * b, b > 0;
-}
-} // verus!
-verus! {
-pub proof fn lemma_floor_bounds(a: nat, b: nat)
-    requires b > 0,
-    ensures (a / b) * b <= a, a < (a / b + 1) * b,
-{
-    assert((a / b) * b <= a && a < (a / b + 1) * b) by (nonlinear_arith) requires b > 0;
-}
+// ------------------------------------------------------------------ arithmetic lemmas (all proved)
 /// staking at a rate within [1/1000, 1000] leaves the rate within [1/1000, 2000]
 pub proof fn lemma_stake_rate(tn: nat, tl: nat, x: nat)
     requires
@@ -30,27 +15,14 @@ pub proof fn lemma_stake_rate(tn: nat, tl: nat, x: nat)
     let m = mint_of(tn, tl, x);
     if tn == 0 {
     } else {
-        lemma_floor_bounds(tl * x, tn);
-        // m*tn <= tl*x < (m+1)*tn
-        assert(m * tn <= tl * x);
-        assert(tl * x < (m + 1) * tn);
-        assert(m <= 1000 * x) by (nonlinear_arith) requires m * tn <= tl * x, tl <= 1000 * tn, tn > 0;
+        lemma_muldiv_floor(tl, x, tn);
+        lemma_muldiv_bound(tl, x, tn, 1000);
         if m > 0 {
             assert(x <= 1000 * (m + 1)) by (nonlinear_arith) requires tl * x < (m + 1) * tn, tn <= 1000 * tl, tl > 0;
         }
     }
 }
-} // verus!
-verus! {
-/// floor(a*b/c) <= a when b <= c
-pub proof fn lemma_share_le(a: nat, b: nat, c: nat)
-    requires c > 0, b <= c,
-    ensures (a * b) / c <= a,
-{
-    assert(a * b <= a * c) by (nonlinear_arith) requires b <= c;
-    assert((a * b) / c <= a) by (nonlinear_arith) requires a * b <= a * c, c > 0;
-}
-/// submitting a batch keeps the rate within [1/2000, 1000] (for b < tl) – enough for `rates_pre`
+/// submitting a batch keeps the remaining rate within [1/100000, 100000] – enough for `rates_pre`
 pub proof fn lemma_submit_rate(tn: nat, tl: nat, b: nat)
     requires tl > 0, tn > 0, tn <= 1000 * tl, tl <= 1000 * tn, b <= tl,
     ensures ({
@@ -62,16 +34,12 @@ pub proof fn lemma_submit_rate(tn: nat, tl: nat, b: nat)
     let u = unbond_of(tn, tl, b);
     if b == 0 {
     } else {
-        lemma_share_le(tn, b, tl);
-        lemma_floor_bounds(tn * b, tl);
-        assert(u * tl <= tn * b);
-        assert(tn * b < (u + 1) * tl);
+        lemma_muldiv_le(tn, b, tl);
+        lemma_muldiv_floor(tn, b, tl);
         if tl - b > 0 {
-            // (tn-u)*tl >= tn*(tl-b)  and  (tn-u-1)*tl < tn*(tl-b)
             assert((tn - u) * tl >= tn * (tl - b)) by (nonlinear_arith) requires u * tl <= tn * b, u <= tn, b <= tl;
             assert(tn - u > 0) by (nonlinear_arith) requires (tn - u) * tl >= tn * (tl - b), tn > 0, tl - b > 0, tl > 0, u <= tn;
             assert((tn - u) * tl < tn * (tl - b) + tl) by (nonlinear_arith) requires tn * b < (u + 1) * tl, u <= tn, b <= tl;
-            // upper: tn-u <= 100000*(tl-b)
             assert(tn - u <= 100000 * (tl - b)) by (nonlinear_arith)
                 requires (tn - u) * tl < tn * (tl - b) + tl, tn <= 1000 * tl, tl - b >= 1, tl > 0, u <= tn, b <= tl;
             assert(tl - b <= 100000 * (tn - u)) by (nonlinear_arith)
